@@ -17,6 +17,10 @@ structure Oracle where
   trim : Str → Str
   /-- `time.Parse(layout, s)`: `some t` when it returns no error -/
   timeParse : Str → Str → Option GoTime
+  /-- `time.Unix(sec, 0)` (the harness runs with `time.Local = time.UTC`) -/
+  timeUnix : Int → Option GoTime := fun _ => none
+  /-- `timeFromFloat64` of sql_read.go: Unix seconds with fraction, or milliseconds beyond 1e12 -/
+  timeFromFloat : FVal → Option GoTime := fun _ => none
 
 def digitsAux : Nat → Nat → List UInt8 → List UInt8
   | 0, _, acc => acc
